@@ -186,12 +186,13 @@ def run_cache_history(ops, P, cold):
             key = (pids[o], i, float(th).hex(), float(a).hex())
             if key not in cold:
                 n0 = C.n
-                cold[key] = Integrator(P[pids[o]]).integrate(NAMES[i], th, a)
+                ci = Integrator(P[pids[o]]); ci._cache = {}        # a private empty dict whatever the class does: truly cold
+                cold[key] = ci.integrate(NAMES[i], th, a)
                 C.n = n0
             if fail is None and float(v).hex() != float(cold[key]).hex():
                 fail = (idx, "integrate(%r, %r, %r) on integrator #%d (pulse %d) returned %s after this history, a cold evaluation gives %s"
                         % (NAMES[i], th, a, o, pids[o], float(v).hex(), float(cold[key]).hex()))
-        final = wobs()
+        final = wobs()[:1000]    # a legitimate final state has < 300 numbers; longer ones can only disagree with the model
     return codes, final, fail
 
 
@@ -331,7 +332,8 @@ def run_gate_case(doc, P):
     """cold sample vs the same request after the history; returns None or a description of the difference"""
     pid, m, args, seed = doc["pulse"], doc["method"], tuple(doc["args"]), doc["seed"]
     np.random.seed(seed)
-    cold = np.asarray(getattr(mk_gateset(["Gates", pid], P), m)(*args))
+    cg = mk_gateset(["Gates", pid], P); cg.integrator._cache = {}       # private empty dict: truly cold whatever the class does
+    cold = np.asarray(getattr(cg, m)(*args))
     st_cold = state_key(np.random.get_state())
     np.random.seed((seed * 7 + 3) % 2 ** 32)
     sets = [mk_gateset(["Gates", pid], P)]
